@@ -11,7 +11,7 @@ comparison of different types) is Broken, not silently mistranslated.
     the continuation re-binds them (`rcall blk (fun st => match st with [..] => rest | _ => None end)`);
   * the loop becomes `r_for fuel cond body state` (a Fixpoint on fuel, lib/RalphLoop.v) with state = loop variable :: assigned locals,
     cond / body emitted as Definitions of their own (captured variables are their parameters), fuel = an upper bound of the count;
-  * `keccak256!` / `ethEcRecover!` are Section variables (oracles) of the generated definitions, `blockTimeStamp!()` and the contract
+  * `keccak256!` / `ethEcRecover!` are oracle parameters of every generated definition, `blockTimeStamp!()` and the contract
     fields read are parameters;
   * a failed assert!, a slice out of range, U256 overflow / underflow, `panic!` are None.
 Nothing is matched against a remembered text: an unknown statement or operand raises Broken."""
@@ -23,6 +23,7 @@ TARGET = "ExtractedRalVerify"
 HEADER = ("From Coq Require Import List ZArith Arith Bool Strings.Byte.\nFrom Coq Require Strings.String.\n"
           "From WH Require Import lib.Bytes.\nFrom WH Require lib.Ralph lib.RalphLoop.\nImport ListNotations.\nOpen Scope Z_scope.\n")
 RAL = "alephium/contracts/governance.ral"
+ORACLES = "(keccak256 : list byte -> list byte) (ethEcRecover : list byte -> list byte -> option (list byte)) "
 
 
 # ------------------------------------------------------------------------------------------------ front end (extends x_governance.P)
@@ -389,7 +390,7 @@ class Fn:
             env2[n] = (gvar(n), t)
             if top:
                 self.order = [(a, b) for a, b in self.order if a != n] + [(n, gvar(n))]
-        s = ("rcall (ral_%s %s) (fun rets => match rets with [%s] =>\n  %s\n  | _ => None end)"
+        s = ("rcall (ral_%s keccak256 ethEcRecover %s) (fun rets => match rets with [%s] =>\n  %s\n  | _ => None end)"
              % (callee, " ".join(["a%d" % i for i in range(len(args))] + extra), "; ".join(gvar(n) for n in names),
                 self.seq(rest, env2, used, fin, top)))
         for i in reversed(range(len(args))):
@@ -434,13 +435,13 @@ class Fn:
         cap_b = [n for n in env if n in ubody and n not in state]
         for n in cap_c + cap_b + asg:
             used.add(n)
-        self.aux.append("(* %s fn %s: %s — condition; state = [%s] *)\nDefinition %s_cond %s(st : list rval) : rv :=\n  match st with [%s] => %s | _ => None end.\n"
+        self.aux.append("(* %s fn %s: %s — condition; state = [%s] *)\nDefinition %s_cond (keccak256 : list byte -> list byte) (ethEcRecover : list byte -> list byte -> option (list byte)) %s(st : list rval) : rv :=\n  match st with [%s] => %s | _ => None end.\n"
                         % (RAL.split("/")[-1], self.fname, hdr, "; ".join(state), base, "".join("(%s : rval) " % env[n][0] for n in cap_c), svars, gc))
-        self.aux.append("(* %s fn %s: %s — body, then the step; returns the new state *)\nDefinition %s_body %s(st : list rval) : option rres :=\n  match st with [%s] =>\n  %s\n  | _ => None end.\n"
+        self.aux.append("(* %s fn %s: %s — body, then the step; returns the new state *)\nDefinition %s_body (keccak256 : list byte -> list byte) (ethEcRecover : list byte -> list byte -> option (list byte)) %s(st : list rval) : option rres :=\n  match st with [%s] =>\n  %s\n  | _ => None end.\n"
                         % (RAL.split("/")[-1], self.fname, hdr, base, "".join("(%s : rval) " % env[n][0] for n in cap_b), svars, gb))
         self.loops.append({"header": hdr, "state": state, "cond_captures": cap_c, "body_captures": cap_b})
         after = "; ".join(["_"] + [env[n][0] for n in asg])
-        return ("rlet %s (fun %s =>\n  rcall (r_for (r_fuel (r_var %s) %s) (%s_cond %s) (%s_body %s) [%s]) (fun st => match st with [%s] =>\n  %s\n  | _ => None end))"
+        return ("rlet %s (fun %s =>\n  rcall (r_for (r_fuel (r_var %s) %s) (%s_cond keccak256 ethEcRecover %s) (%s_body keccak256 ethEcRecover %s) [%s]) (fun st => match st with [%s] =>\n  %s\n  | _ => None end))"
                 % (ginit, gvar(iv), gvar(iv), gbound, base, " ".join(env[n][0] for n in cap_c), base, " ".join(env[n][0] for n in cap_b), svars, after,
                    self.seq(rest, env, used, fin, top)))
 
@@ -458,7 +459,7 @@ class Fn:
         params = [gvar(p) for p, _ in self.decl] + [g for g, _, _ in self.free]
         doc = ", ".join("%s = %s" % (g, t) for g, t, _ in self.free)
         self.text = "".join(self.aux) + ("(* %s fn %s(%s) -> (%s), statement by statement; None = the VM aborts; fields / clock read: %s *)\n"
-                                         "Definition ral_%s %s: option rres :=\n  %s.\n"
+                                         "Definition ral_%s (keccak256 : list byte -> list byte) (ethEcRecover : list byte -> list byte -> option (list byte)) %s: option rres :=\n  %s.\n"
                                          % (RAL.split("/")[-1], self.fname, ", ".join("%s: %s" % d for d in self.decl), ", ".join(self.rets), doc or "none",
                                             self.fname, "".join("(%s : rval) " % g for g in params), term))
         return self
@@ -491,18 +492,24 @@ def x_ral_verify_full():
         raise Broken("parseAndVerifyVAA parameters are %s" % main.decl)
     if main.rets != ["U256", "U256", "ByteVec", "U256", "ByteVec"]:
         raise Broken("parseAndVerifyVAA returns (%s)" % ", ".join(main.rets))
-    if main.oracles != {"keccak256", "ethEcRecover"}:
-        raise Broken("parseAndVerifyVAA uses the built-ins %s (expected keccak256! and ethEcRecover!)" % sorted(main.oracles))
     if len(main.loops) != 1:
         raise Broken("parseAndVerifyVAA has %d loops" % len(main.loops))
-    out = ["Module RalVerify.\nImport Coq.Strings.String WH.lib.Ralph WH.lib.RalphLoop.\n"]
+    out = ["Module RalVerify.\nImport Coq.Strings.String WH.lib.Ralph WH.lib.RalphLoop.\n"
+           "(* every definition takes the two oracles first: keccak256!(bytes) and ethEcRecover!(hash, signature) (None = the VM aborts) *)\n"]
     for n in sorted(u.used_consts):
         out.append("Definition c_%s : rv := %s.\n" % (n, G.glit(u.consts[n])))
-    out.append("Section Oracles.\n(* keccak256!(bytes) *)\nVariable keccak256 : list byte -> list byte.\n"
-               "(* ethEcRecover!(hash, signature); None = the VM aborts *)\nVariable ethEcRecover : list byte -> list byte -> option (list byte).\n")
     for f in u.emitted:
         out.append(f.text)
-    out.append("End Oracles.\nEnd RalVerify.\n")
+    # the entry point with a FIXED parameter list (whatever subset of the contract state the source reads today)
+    fixed = ["guardianSetIndexes[1]", "guardianSets[1]", "guardianSetIndexes[0]", "blockTimeStamp!()", "previousGuardianSetExpirationTimeMS", "guardianSets[0]"]
+    for _, text, _ in main.free:
+        if text not in fixed:
+            raise Broken("parseAndVerifyVAA reads `%s`, which is not part of the guardian-set state the model knows (%s)" % (text, ", ".join(fixed)))
+    out.append("(* the entry point applied to the guardian-set state: parameters in a fixed order, whichever of them the source reads *)\n"
+               "Definition ral_parseAndVerifyVAA_on %s%s: option rres :=\n  ral_parseAndVerifyVAA keccak256 ethEcRecover %s.\n"
+               % (ORACLES, "".join("(%s : rval) " % g for g in ["v_data", "v_isGovernanceVAA"] + [gvar(t) for t in fixed]),
+                  " ".join(["v_data", "v_isGovernanceVAA"] + [g for g, _, _ in main.free])))
+    out.append("End RalVerify.\n")
     info = {"functions": {f.fname: {"params": [p for p, _ in f.decl], "reads": [t for _, t, _ in f.free], "calls": f.calls, "asserts": f.asserts,
                                     "loops": f.loops, "entries": [a for a, _ in f.order]} for f in u.emitted},
             "constants": {n: u.consts[n][1] for n in sorted(u.used_consts)}}
